@@ -242,7 +242,7 @@ func Check[C any](t *testing.T, p Prop[C]) {
 		if err := json.Unmarshal(rf.Case, &c); err != nil {
 			t.Fatalf("replay: bad case: %v", err)
 		}
-		out := p.Run(t, c)
+		out := watched(p.ID, test, c, func() Outcome { return p.Run(t, c) })
 		account(c, out, true)
 		if out.Violation != "" {
 			recordViolation(st, p.ID, test, rf.Case, out, Replay)
@@ -270,7 +270,7 @@ func Check[C any](t *testing.T, p Prop[C]) {
 			t.Logf("regress %s: stale case format: %v", f, err)
 			continue
 		}
-		out := p.Run(t, c)
+		out := watched(p.ID, test, c, func() Outcome { return p.Run(t, c) })
 		account(c, out, false)
 		if out.Violation != "" {
 			abs, _ := filepath.Abs(f)
@@ -314,7 +314,7 @@ func Check[C any](t *testing.T, p Prop[C]) {
 	}()
 	rapid.Check(t, func(rt *rapid.T) {
 		c := p.Gen(rt)
-		out := p.Run(t, c)
+		out := watched(p.ID, test, c, func() Outcome { return p.Run(t, c) })
 		account(c, out, true)
 		if out.Violation != "" {
 			raw := canon(c)
@@ -432,4 +432,42 @@ func GoID() int64 {
 		id = id*10 + int64(ch-'0')
 	}
 	return id
+}
+
+// CaseTimeout is the real-time watchdog for a single case. Its expiry alone is "inconclusive";
+// the driver reports a violation only when the goroutine dump taken at expiry shows library
+// goroutines parked on a mutex (a proven deadlock) for a property that promises termination.
+var CaseTimeout = time.Duration(envInt("VERIF_CASE_TIMEOUT_S", 90)) * time.Second
+
+func watched[C any](id, test string, c C, run func() Outcome) Outcome {
+	timer := time.AfterFunc(CaseTimeout, func() { hang(id, test, c) })
+	defer timer.Stop()
+	return run()
+}
+
+// Watch arms the per-case watchdog for hand-enumerated cases; call the returned func when done.
+func Watch[C any](id, test string, c C) func() {
+	timer := time.AfterFunc(CaseTimeout, func() { hang(id, test, c) })
+	return func() { timer.Stop() }
+}
+
+func hang[C any](id, test string, c C) {
+	buf := make([]byte, 4<<20)
+	dump := string(buf[:runtime.Stack(buf, true)])
+	libMutex := false
+	for _, g := range strings.Split(dump, "\n\n") {
+		if strings.Contains(g, "github.com/platinummonkey/go-concurrency-limits/") &&
+			(strings.Contains(g, "sync.(*Mutex).Lock") || strings.Contains(g, "sync.(*RWMutex).Lock") || strings.Contains(g, "sync.(*RWMutex).RLock")) {
+			libMutex = true
+		}
+	}
+	raw := canon(c)
+	out := Outcome{Violation: "case did not finish within " + CaseTimeout.String() + " of real time; goroutine dump:\n" + dump, Sig: "hang"}
+	if len(out.Violation) > 20000 {
+		out.Violation = out.Violation[:20000]
+	}
+	path := saveFound(id, test, raw, out)
+	fmt.Printf("VERIF-HANG property=%s libmutex=%v replay=%s\n", id, libMutex, path)
+	Flush()
+	os.Exit(3)
 }
